@@ -1,10 +1,11 @@
 #!/bin/bash
+R=${REPO:-/repo}   # REPO=<scratch worktree> lets several of these run side by side; the default is /repo itself
 # usage: run_neutral.sh <ID> : applies each /tmp/neutralout/<ID>/k/patch.diff to /repo, runs the property's check, reverts.
 id=$1
 for d in ${NEUTRAL_ROOT:-/tmp/neutralout}/$id/*/; do
   k=$(basename $d)
-  git -C /repo apply $d/patch.diff 2>/dev/null || git -C /repo apply -C1 $d/patch.diff || { echo "APPLY FAILED $id/$k"; continue; }
-  out=$(./bin/tmverif -prop ${2:-$id} -no-evidence 2>&1)
-  git -C /repo checkout -- .
+  git -C $R apply $d/patch.diff 2>/dev/null || git -C $R apply -C1 $d/patch.diff || { echo "APPLY FAILED $id/$k"; continue; }
+  out=$(./bin/tmverif -repo $R -prop ${2:-$id} -no-evidence 2>&1)
+  git -C $R checkout -- .
   if echo "$out" | grep -q "^VIOLATION\|LOAD-FAILED"; then echo "ALARM $id/$k"; echo "$out" | grep "^  VIOLATION\|^  UNDECIDED\|^  FLOOR\|LOAD-FAILED" | cut -c1-330; else echo "silent $id/$k"; fi
 done
